@@ -1,8 +1,8 @@
 P = __file__.rsplit("/units/", 1)[0] + "/prelude/"
 UNIT = dict(
     id="c01_regret_wrapper",
-    prelude=["floats.rs", "std_ext.rs", "infoset_traits.rs"],
-    canary_use="broadcast use fl; ax_obeys();",
+    prelude=["floats.rs", "ideal.rs", "std_ext.rs", "infoset_traits.rs"],
+    canary_use="broadcast use fl; broadcast use ideal; ax_obeys(); ax_rv_lits();",
     expect=[("src/regret.rs", r"fn optimal_deviations<const PLAYER_ONE: bool>\(\s*start: &Node,\s*chance_info: &\[impl ChanceInfoset\],\s*player_info: &\[impl PlayerInfoset\],\s*strat_info: &\[impl AsRef<\[f64\]>\],\s*\) -> f64"),
             ("src/regret.rs", r"pub\(super\) fn expected\(\s*node: &Node,\s*chance_info: &\[impl ChanceInfoset\],\s*strat_info: \[&\[impl AsRef<\[f64\]>\]; 2\],\s*\) -> f64")],
     assumptions=[
@@ -28,9 +28,12 @@ pub fn optimal_deviations<const PLAYER_ONE: bool>(
     // reported utility is the expectation under BOTH strategies
     out.0 == exp_spec(*start, chance_info@, strat_info[0]@, strat_info[1]@), // @ob C01.V.regret.utility
     // player one: best response (own infosets, against player TWO's strategy) minus current value, clamped at 0
-    out.1[0] == fmaxf(fsub(od_spec(true, *start, chance_info@, player_info[0]@, strat_info[1]@), out.0), 0.0f64), // @ob C01.V.regret.player_one
+    // (value clauses in idealised reals, so that operand order in `max` / `+` is immaterial)
+    rv(out.1[0]) == (if rv(od_spec(true, *start, chance_info@, player_info[0]@, strat_info[1]@)) - rv(out.0) >= 0real
+        { rv(od_spec(true, *start, chance_info@, player_info[0]@, strat_info[1]@)) - rv(out.0) } else { 0real }), // @ob C01.V.regret.player_one
     // player two: sign flipped (payoffs are player one's), against player ONE's strategy
-    out.1[1] == fmaxf(fadd(od_spec(false, *start, chance_info@, player_info[1]@, strat_info[0]@), out.0), 0.0f64), // @ob C01.V.regret.player_two""",
-             entry="broadcast use fl;\nproof { ax_obeys(); }"),
+    rv(out.1[1]) == (if rv(od_spec(false, *start, chance_info@, player_info[1]@, strat_info[0]@)) + rv(out.0) >= 0real
+        { rv(od_spec(false, *start, chance_info@, player_info[1]@, strat_info[0]@)) + rv(out.0) } else { 0real }), // @ob C01.V.regret.player_two""",
+             entry="broadcast use fl; broadcast use ideal;\nproof { ax_obeys(); ax_rv_lits(); }"),
     ],
 )
